@@ -245,6 +245,9 @@ def stepLine (st : St) (line : String) : St × List String :=
         (st, [s!"spec {id} cleanup-stalled-on-full-request-queue with the outbound request queue full and {due} retransmission(s) due, every cleanup tick took at least {ms} ms (ticks: {(kv rest "all").getD "?"} ms); posting to a full queue must fail immediately, and while the tick runs no observation, message or guardian-set update is handled"])
       else (st, [s!"ok {id}"])
     | _, _ => (st, [s!"diff {id} unparsable stall line"])
+  | ["rerun", id] =>
+    -- Run returned and was entered again on the same Processor (supervisor restart): the model takes no step
+    (st, if st.dead then [] else [s!"ok {id}"])
   | "reqs" :: id :: rs :: _ =>
     if st.dead || st.desync then (st, []) else
     match st.pendingReqs with
@@ -419,6 +422,17 @@ def stepLine (st : St) (line : String) : St × List String :=
                      | none => []
           | _ => []
         let (pubErrs, st) := specPublish st id op extra (if op = "inb" then some dig else none) iOut iDb
+        -- C02 "publishes the signed VAA (stores and broadcasts it)": what is broadcast as complete is in the store under its id
+        let storedErr : List String :=
+          if unobserved then [] else
+          ((outsOf iOut).filterMap fun o =>
+            if o.startsWith "V:" then
+              match parseHexD ((o.drop 2).toString) >>= unmarshalLenient with
+              | some v => if (iDb.lookup (showId v.body.id)).isNone then
+                  some s!"spec {id} published-vaa-not-stored {op}: a VAA for message {showId v.body.id} was broadcast as complete but the store holds nothing under that id"
+                else none
+              | none => none
+            else none).take 1
         -- completeness: quorum of accepted, distinct members of the snapshot set ⇒ published by now (C02)
         let complErr : List String := match ev with
           | .observation o _ =>
@@ -486,7 +500,7 @@ def stepLine (st : St) (line : String) : St × List String :=
         let serveErr : List String := match notServed with
           | [] => []
           | x :: _ => [s!"spec {id} stored-vaa-not-served {op}: the store holds a signed VAA that the node's own lookup does not return as stored ({x.take 120}; {notServed.length} such entries)"]
-        let specErrs := govErr ++ gateErr ++ pubErrs ++ complErr ++ cleanErrs ++ budgetErr ++ serveErr
+        let specErrs := govErr ++ gateErr ++ pubErrs ++ storedErr ++ complErr ++ cleanErrs ++ budgetErr ++ serveErr
         -- ---------- model vs implementation ----------
         if st.desync then (st, if specErrs.isEmpty then [] else specErrs) else
         match mres with
